@@ -78,21 +78,86 @@ theorem bucketOf_bounds (t : Time) : -(2:Int)^63 ≤ bucketOf t ∧ bucketOf t <
   have := BitVec.le_toInt (x := storageBucket t)
   omega
 
-theorem inRange_bucket {lc : Int} {now exp : Time} (hlc : -(2:Int)^63 ≤ lc) (h1 : lc < bucketOf exp)
-    (h2 : bucketOf exp ≤ cleanupOf now) : inRange lc (cleanupOf now) (bucketOf exp) = true := by
-  obtain ⟨hb1, hb2⟩ := bucketOf_bounds exp
-  unfold inRange
-  rw [Bool.and_eq_true, decide_eq_true_eq]
-  constructor
-  · unfold sweepFirst
-    rw [BitVec.toInt_add, BitVec.toInt_ofInt]
-    have h1' : (1#64).toInt = 1 := by decide
-    rw [h1']
-    simp only [Int.bmod_def]
-    split <;> split <;> omega
-  · unfold sweepLoopCond bucketOf cleanupOf
-    rw [BitVec.ofInt_toInt, BitVec.ofInt_toInt, BitVec.sle_iff_toInt_le]
-    exact h2
+/-- bucket numbers that are int64 values -/
+def BucketOk (b : Int) : Prop := -(2:Int)^63 ≤ b ∧ b < (2:Int)^63
+
+/-- `lastCleaned` values far from the int64 limits (true for `cleanupOf` of sane times) -/
+def LcOk (lc : Int) : Prop := -(2:Int)^62 ≤ lc ∧ lc < (2:Int)^62
+
+theorem bucketOf_ok (t : Time) : BucketOk (bucketOf t) := bucketOf_bounds t
+
+theorem cleanupOf_lcOk {t : Time} (h : TimeOk t) : LcOk (cleanupOf t) := by
+  unfold cleanupOf LcOk
+  rw [cleanupBucket_toInt t h, tdiv5]
+  obtain ⟨h1, h2⟩ := h
+  split <;> omega
+
+theorem cleanupOf_mono {t t' : Time} (h : TimeOk t) (h' : TimeOk t') (hle : t ≤ t') : cleanupOf t ≤ cleanupOf t' := by
+  unfold cleanupOf
+  rw [cleanupBucket_toInt t h, cleanupBucket_toInt t' h', tdiv5, tdiv5]
+  simp only [Time] at hle
+  split <;> split <;> omega
+
+theorem ofInt_toInt_of_ok {b : Int} (h : BucketOk b) : (BitVec.ofInt 64 b).toInt = b := by
+  obtain ⟨h1, h2⟩ := h
+  rw [BitVec.toInt_ofInt, Int.bmod_def]
+  omega
+
+theorem next_toInt {lc : Int} (h : LcOk lc) : ((BitVec.ofInt 64 lc) + 1#64).toInt = lc + 1 := by
+  obtain ⟨h1, h2⟩ := h
+  rw [BitVec.toInt_add, BitVec.toInt_ofInt]
+  have h1' : (1#64).toInt = 1 := by decide
+  rw [h1']
+  simp only [Int.bmod_def]
+  split <;> split <;> omega
+
+theorem inRange_iff {lc cur b : Int} (hlc : LcOk lc) (hb : BucketOk b) (hcur : BucketOk cur) :
+    inRange lc cur b = true ↔ lc < b ∧ b ≤ cur := by
+  unfold inRange sweepFirst sweepLoopCond
+  rw [Bool.and_eq_true, decide_eq_true_eq, next_toInt hlc, BitVec.sle_iff_toInt_le, ofInt_toInt_of_ok hb,
+    ofInt_toInt_of_ok hcur]
+  omega
+
+theorem cleanupOf_ok (t : Time) : BucketOk (cleanupOf t) := by
+  unfold cleanupOf BucketOk
+  have := BitVec.toInt_lt (x := cleanupBucket t)
+  have := BitVec.le_toInt (x := cleanupBucket t)
+  omega
+
+theorem LcOk.bucketOk {lc : Int} (h : LcOk lc) : BucketOk lc := by
+  unfold LcOk at h; unfold BucketOk; omega
+
+/-- the bucket a new registration goes to (`expirationMap.add` after the repair of F6): the bucket of the
+expiration, or — when that one has already been cleaned up — the next one to be cleaned up -/
+theorem addBucket_spec {em : Em} {exp : Time} (hlc : LcOk em.lastCleaned) :
+    em.lastCleaned < addBucket em exp ∧ bucketOf exp ≤ addBucket em exp ∧ BucketOk (addBucket em exp) ∧
+      (addBucket em exp = bucketOf exp ∨ addBucket em exp = em.lastCleaned + 1) := by
+  have hb := bucketOf_ok exp
+  have hs : ((BitVec.ofInt 64 (bucketOf exp)).sle (BitVec.ofInt 64 em.lastCleaned) = true) ↔
+      bucketOf exp ≤ em.lastCleaned := by
+    rw [BitVec.sle_iff_toInt_le, ofInt_toInt_of_ok hb, ofInt_toInt_of_ok hlc.bucketOk]
+  have hn := next_toInt hlc
+  unfold addBucket emAddLate emAddNext
+  dsimp only
+  unfold LcOk at hlc; unfold BucketOk at hb ⊢
+  split
+  · rename_i h; rw [hs] at h; rw [hn]; omega
+  · rename_i h; rw [hs] at h; omega
+
+theorem updateBucket_spec {em : Em} {exp : Time} (hlc : LcOk em.lastCleaned) :
+    em.lastCleaned < updateBucket em exp ∧ bucketOf exp ≤ updateBucket em exp ∧ BucketOk (updateBucket em exp) ∧
+      (updateBucket em exp = bucketOf exp ∨ updateBucket em exp = em.lastCleaned + 1) := by
+  have hb := bucketOf_ok exp
+  have hs : ((BitVec.ofInt 64 (bucketOf exp)).sle (BitVec.ofInt 64 em.lastCleaned) = true) ↔
+      bucketOf exp ≤ em.lastCleaned := by
+    rw [BitVec.sle_iff_toInt_le, ofInt_toInt_of_ok hb, ofInt_toInt_of_ok hlc.bucketOk]
+  have hn := next_toInt hlc
+  unfold updateBucket emUpdateLate emUpdateNext
+  dsimp only
+  unfold LcOk at hlc; unfold BucketOk at hb ⊢
+  split
+  · rename_i h; rw [hs] at h; rw [hn]; omega
+  · rename_i h; rw [hs] at h; omega
 
 /-! ### `Em.grab` -/
 
